@@ -65,10 +65,13 @@ def render(ead, order=None, continuation=None, comments=False, models="after", r
             for c in it.get("covers", ()):
                 lines.append(c)
         elif k == "latch":
-            emit([".latch", it["in"], it["out"], it["type"], it["ctrl"], str(it["init"])])
+            emit([".latch", it["in"], it["out"]] + ([it["type"], it["ctrl"]] if it.get("type") is not None else []) +
+                 ([str(it["init"])] if it.get("init") is not None else []))
         elif k == "conn":
             emit([".conn", it["a"], it["b"]])
             continue
+        if comments:
+            lines.append("# a comment between the statement and the data that belongs to it")
         if it.get("cname"):
             lines.append(".cname " + it["cname"])
         for kk, v in (it.get("attr") or {}).items():
@@ -141,7 +144,12 @@ def expected(ead, models="after", order=None):
             attach(it["out"], ("I", name, "out", 0))
         elif k == "latch":
             insts[name] = ("generic-latch", "EBLIF.latch", {}, {}, None)
-            for f, a in (("input", it["in"]), ("output", it["out"]), ("type", it["type"]), ("control", it["ctrl"]), ("init-val", str(it["init"]))):
+            fields = [("input", it["in"]), ("output", it["out"])]
+            if it.get("type") is not None:
+                fields += [("type", it["type"]), ("control", it["ctrl"])]
+                if it.get("init") is not None:
+                    fields.append(("init-val", str(it["init"])))
+            for f, a in fields:
                 attach(a, ("I", name, f, 0))
     classes = {}
     for bit, ps in pins.items():
